@@ -123,7 +123,7 @@ def _fam_worker(args):
 
 
 def family(run, mods, wd, rnd, hist):
-    maxnodes = 4
+    maxnodes = 4 if run.tier == "quick" else 5
     maxitems = 3
     env = tenv(mods)
     items = [eval(e, env) for e in fam_item_exprs()]  # noqa: S307
@@ -934,7 +934,7 @@ def check(run: common.Run):
         distinct_nontrivial=len(distinct) + n_itemlists,
         rule=("family: every item list of length <=2 (and " + ("1/8 of length 3, shard = seed mod 8" if run.tier == "quick" else "all of length 3") +
               ") over {object, Constant 0, Constant 1, Wildcard x, Wildcard y} x {plain,?,*,+} against ALL node lists "
-              "of length <=4 over Constant 0/1/2, real core.match_template vs the model evaluated in Coq, one checksum "
+              "of length <=" + ("4" if run.tier == "quick" else "5") + " over Constant 0/1/2, real core.match_template vs the model evaluated in Coq, one checksum "
               "per item list (exhaustive for length <=2). explicit cases: 100+ hand-built/compiled templates x every "
               "sub-node of 29 sources; nested two-level lists with repeated names (full small scope + seeded sample); "
               "seeded random trees with generalised patterns and self-embedding. search: walk_wildcard/walk_sequence/"
